@@ -104,6 +104,7 @@ struct CaseCfg {
   CmpSpec cmp;
   DelayCfg delay;
   IterDelayCfg iterDelay;
+  unsigned gateK    = 0; // first element callback of a pool thread waits (bounded) until gateK threads got that far
   uint64_t dataSeed = 1;
   bool thorough     = false;
 };
@@ -127,6 +128,7 @@ struct alignas(128) ThreadMon {
   int64_t budget       = 0;
   int64_t iterBudget   = 0;
   uint64_t iterDelays  = 0;
+  bool gated           = false;
 };
 struct AddrRun {
   const char* lo;
@@ -146,6 +148,8 @@ struct Monitor {
   std::vector<uint8_t> seen; // position examined during the parallel phase (only when haveMap)
   DelayCfg delay;
   IterDelayCfg iterDelay;
+  unsigned gateK = 0;
+  std::atomic<unsigned> arrived{0};
   const char* comp = "";
   uint64_t oobSerial = 0;
   long oobIndex      = 0;
@@ -157,6 +161,8 @@ struct Monitor {
       t[i].iterBudget = c.iterDelay.budget;
     }
     iterDelay = c.iterDelay;
+    gateK     = c.gateK;
+    arrived.store(0, std::memory_order_relaxed);
     runs.clear();
     haveMap   = false;
     n         = c.n;
@@ -302,6 +308,15 @@ inline uint32_t observe_element(const T& v) {
   ++tm.calls;
   if (!inReg)
     ++tm.serialCalls;
+  else if (m.gateK && !tm.gated) {
+    // start gate: a thread that has just claimed its first block(s) lets up to gateK-1 others claim theirs
+    // before it goes on (bounded wait, at most 1.5 ms; whoever does not come is not waited for)
+    tm.gated = true;
+    m.arrived.fetch_add(1, std::memory_order_relaxed);
+    double t0 = verif::now_s();
+    while (m.arrived.load(std::memory_order_relaxed) < m.gateK && verif::now_s() - t0 < 1500e-6)
+      asm volatile("pause");
+  }
   uint32_t key = keyOf(v);
   maybe_delay(tm, tid, idx, key);
   if ((tm.calls & 127) == 0)
